@@ -232,10 +232,22 @@ func netKV(r *rand.Rand) string {
 	if r.Intn(5) == 0 {
 		out += " rmd=1"
 	}
+	// the same endpoint written in another of the ways gRPC accepts (what replacePort makes of it matters with rp=1)
+	if r.Intn(6) == 0 {
+		out += " tf=" + pick(r, []string{"1", "2", "3", "6"})
+	}
+	// the reflection API also lists a service nobody can resolve
+	if r.Intn(6) == 0 {
+		out += " ghost=1"
+	}
+	// a configured DIAL timeout (2 s: enough for a local dial, and recognisable should it leak into a call's deadline)
+	if r.Intn(6) == 0 {
+		out += " dto=2000"
+	}
 	return out
 }
 
-const placeholderLetters = "UAIGRSXKLN" // placeholders that print a value
+const placeholderLetters = "UAIGRSXKLNM" // placeholders that print a value
 
 const spellLetters = placeholderLetters + "E" // … and the action that fails to execute
 
@@ -338,13 +350,16 @@ func provKV(r *rand.Rand, es []string, allowStop bool) (string, []string, int) {
 		lim := 1 + r.Intn(total+2)
 		out += fmt.Sprintf(" lim=%d", lim)
 		if r.Intn(3) == 0 {
-			// unlimited passes: only the limit ends the run
-			out = strings.Replace(out, fmt.Sprintf(" pas=%d", passes), "", 1) + " pas=0"
+			// unlimited passes (written as 0, or not written at all: the default): only the limit ends the run
+			out = strings.Replace(out, fmt.Sprintf(" pas=%d", passes), "", 1) + pick(r, []string{" pas=0", " pas=d"})
 			total = lim
 		}
 		if lim < total {
 			total = lim
 		}
+	}
+	if r.Intn(6) == 0 {
+		out += " src=1"
 	}
 	return out, es, total
 }
@@ -465,7 +480,28 @@ func genJSONBig(r *rand.Rand) string {
 // ---------------------------------------------------------------- scenarios
 
 var mdTemplates = []string{"x-user:u-{U}", "x-g:{G}", "x-const:abc", "x-mix:{G}-{U}~end", "X-Up:{U}{U}", "x-plain:Bearer~zzz", "payload:p-{U}-{G}",
-	"x-fn:{R}-{S}~{U}", "x-id:{X}", "x-k:{K}{L}~{N}", "x-sp:a~{U}~~b~{G}~c", "x-rid:r{R}{X}-{G}", "x-br:{~{U}~}"}
+	"x-fn:{R}-{S}~{U}", "x-id:{X}", "x-k:{K}{L}~{N}", "x-sp:a~{U}~~b~{G}~c", "x-rid:r{R}{X}-{G}", "x-br:{~{U}~}", "x-n:{M}", "x-nm:n{M}~{U}"}
+
+// numericGlobals: values of the numeric variable: small, negative, 0, at the size where a float prints an exponent, beyond
+// 2^53, the ends of the int64 range
+var numericGlobals = []string{"7", "-3", "0", "1000000", "123456789", "9007199254740993", "-9007199254740993", "1234567890123456789",
+	"9223372036854775807", "-9223372036854775808", "20000000", "4611686018427387905"}
+
+// preForm: how a call's preprocessor picks its user: mostly [next]; sometimes the last, a fixed index (inside the list or
+// wrapping around it), an index counted from the end, or two preprocessors defining the same variable
+func preForm(r *rand.Rand) string {
+	switch r.Intn(10) {
+	case 0:
+		return "uL"
+	case 1:
+		return "u" + strconv.Itoa(r.Intn(10))
+	case 2:
+		return "um" + strconv.Itoa(1+r.Intn(9))
+	case 3:
+		return "uu"
+	}
+	return "u"
+}
 
 func genScen(r *rand.Rand, engine bool) string {
 	n := pick(r, []int{1, 2, 2, 3, 4})
@@ -497,8 +533,19 @@ func genScen(r *rand.Rand, engine bool) string {
 			md = append(md, "x-user:u-{U}")
 		}
 		payload := pick(r, []string{"name:s.{U}", "name:s.{U}", "name:s.n-{U}-{G}", "name:s.a~{U}~~{R}~{S}", "name:s.{X}.{U}"})
-		calls = append(calls, name+"|"+svc+"Hello|"+spell(r, strings.Join(md, ","))+"|"+spell(r, payload)+"|u")
+		calls = append(calls, name+"|"+svc+"Hello|"+spell(r, strings.Join(md, ","))+"|"+spell(r, payload)+"|"+preForm(r))
 		okCalls = append(okCalls, name)
+	}
+	// a numeric variable of the variables source (sometimes used without being defined): in a text field, in metadata and,
+	// deterministic runs only, as an int64 field of a call the server answers with InvalidArgument (the token is no token)
+	gn := ""
+	if r.Intn(3) != 0 {
+		gn = " gn=" + pick(r, numericGlobals)
+	}
+	var numCalls []string
+	if !engine && r.Intn(4) == 0 {
+		calls = append(calls, "num|"+svc+"List|"+spell(r, "x-n:{M}")+"|"+spell(r, "user_id:n.{M},token:s.t{M}")+"|-")
+		numCalls = append(numCalls, "num")
 	}
 	// (deterministic runs only) steps the SERVER refuses: by an injected status (a constant, or rendered: {N} prints 4 =
 	// DeadlineExceeded) or because the credentials are wrong; with and without an assert/response postprocessor
@@ -565,6 +612,9 @@ func genScen(r *rand.Rand, engine bool) string {
 		}
 	}
 	ns := 1 + r.Intn(3)
+	if r.Intn(6) == 0 {
+		ns = 4
+	}
 	var scns []string
 	for s := 0; s < ns; s++ {
 		var reqs []string
@@ -596,11 +646,20 @@ func genScen(r *rand.Rand, engine bool) string {
 			pos := r.Intn(len(reqs) + 1)
 			reqs = append(reqs[:pos], append([]string{pick(r, peekCalls)}, reqs[pos:]...)...)
 		}
+		if len(numCalls) > 0 && r.Intn(3) != 0 {
+			pos := r.Intn(len(reqs) + 1)
+			reqs = append(reqs[:pos], append([]string{"num"}, reqs[pos:]...)...)
+		}
 		if len(failCalls) > 0 && r.Intn(2) == 0 {
 			pos := r.Intn(len(reqs) + 1)
 			reqs = append(reqs[:pos], append([]string{pick(r, failCalls)}, reqs[pos:]...)...)
 		}
-		scns = append(scns, fmt.Sprintf("s%d:%d:%s", s, 1+r.Intn(3), strings.Join(reqs, "+")))
+		// weights: mostly 1..3; sometimes with common divisors of two of them, of all of them, or 0 (= 1)
+		w := 1 + r.Intn(3)
+		if r.Intn(3) == 0 {
+			w = pick(r, []int{2, 4, 6, 6, 9, 3, 0, 8})
+		}
+		scns = append(scns, fmt.Sprintf("s%d:%d:%s", s, w, strings.Join(reqs, "+")))
 	}
 	// a name defined twice: the provider's registry keeps the LAST definition; the shadowed one (other method, other
 	// templates) must never be shot
@@ -623,10 +682,24 @@ func genScen(r *rand.Rand, engine bool) string {
 			calls = append(calls[:pos], append([]string{shadow}, calls[pos:]...)...)
 		}
 	}
-	base := fmt.Sprintf("mode=scen run=@RUN@ n=%d %s%s users=%s g=%s calls=%s scns=%s", n, tmoKV(r), netKV(r),
+	// the way the users file is written (same users)
+	csv := ""
+	if r.Intn(3) == 0 {
+		csv = fmt.Sprintf(" csv=%d", 1+r.Intn(3))
+	}
+	base := fmt.Sprintf("mode=scen run=@RUN@ n=%d %s%s%s%s users=%s g=%s calls=%s scns=%s", n, tmoKV(r), netKV(r), csv, gn,
 		strings.Join(users, ","), c20lib.Enc(genG(r)), strings.Join(calls, ";"), strings.Join(scns, ";"))
 	if engine {
 		return strings.Replace(base, "@RUN@", "engine", 1) + fmt.Sprintf(" shots=%d", 8+r.Intn(30))
+	}
+	// (deterministic runs) the scenario provider's own passes / limit: the schedule may ask for more than it delivers
+	if r.Intn(5) == 0 {
+		if r.Intn(2) == 0 {
+			base += fmt.Sprintf(" spas=%d", 1+r.Intn(2))
+		}
+		if r.Intn(2) == 0 {
+			base += fmt.Sprintf(" slim=%d", 1+r.Intn(9))
+		}
 	}
 	l := 3 + r.Intn(9)
 	sched := make([]byte, l)
@@ -706,7 +779,7 @@ func genScenSpelled(r *rand.Rand, engine bool) string {
 		reqs = "auth+sp+sp"
 	}
 	calls = append(calls, "sp|"+svc+"Hello|"+strings.Join(md, ",")+"|"+payload+"|u")
-	base := fmt.Sprintf("mode=scen run=@RUN@ n=%d tmo=0%s users=%s g=%s calls=%s scns=s:1:%s", n, netKV(r), "3,1,2", c20lib.Enc(genG(r)),
+	base := fmt.Sprintf("mode=scen run=@RUN@ n=%d tmo=0%s gn=%s users=%s g=%s calls=%s scns=s:1:%s", n, netKV(r), pick(r, numericGlobals), "3,1,2", c20lib.Enc(genG(r)),
 		strings.Join(calls, ";"), reqs)
 	if engine {
 		return strings.Replace(base, "@RUN@", "engine", 1) + fmt.Sprintf(" shots=%d", 4+r.Intn(6))
@@ -830,7 +903,10 @@ func gen(r *rand.Rand, tier string) []string {
 	if tier == "thorough" {
 		nj, njs, nl, ns, nc, ne, nsl, nsp, nb = 2600, 2600, 20, 4400, 500, 300, 10, 400, 40
 	}
-	out := []string{"mode=table", "mode=table rp=1", "mode=table rp=1 rmd=1", "mode=table rmd=1"}
+	out := []string{"mode=table", "mode=table rp=1", "mode=table rp=1 rmd=1", "mode=table rmd=1",
+		// targets written without a port (only the reflection endpoint is reachable, through reflect_port), other spellings
+		// of the target, a reflection API that lists a service nobody can resolve
+		"mode=table rp=1 tf=b", "mode=table rp=1 tf=c", "mode=table rp=1 tf=2 ghost=1", "mode=table tf=1 ghost=1", "mode=table rp=1 tf=6 rmd=1"}
 	for i := 0; i < nsp; i++ {
 		out = append(out, genScenSpelled(r, i%6 == 5))
 	}
